@@ -1977,8 +1977,17 @@ func (p *parser) projection(prec int) (Node, error) {
 		return nil, nil
 	}
 
-	// The remaining selectors apply to the value selected so far.
-	return p.infix(node, prec)
+	// The remaining selectors apply to the value selected so far. They are
+	// parsed by a nested call that does not pass through expression, so the
+	// nesting is counted here.
+	p.depth++
+	if p.depth > maxNesting {
+		return nil, errNestingTooDeep
+	}
+
+	node, err = p.infix(node, prec)
+	p.depth--
+	return node, err
 }
 
 func (p *parser) selectArray(child Node) (Node, error) {
